@@ -70,6 +70,9 @@ def simulate(which):
     spec = model_spec(which)
     # element names are free text: dots and spaces included
     names = None if which == 0 else [f'stage {which}.{i}' if i else 'motor v1.0' for i in range(len(spec['elements']))]
+    if which == 2:
+        # pairwise different names that any normalisation (strip, case folding, unicode composition) would merge
+        names = ['drive', 'drive ', ' drive', 'Drive', 'dr\u00edve', 'dri\u0301ve'][:len(spec['elements'])]
     m = sim.Model(spec, names)
     m.run([0.125, 'sec'], [1.0, 'sec'], duty=[1, 0.6, 0.8, 1, 0.3, None, 0.9, 1, 1])
     return m
@@ -157,6 +160,9 @@ def check_snapshot(acc, which, m, variables, t, t_unit, unit_over, tag=None):
             if not si.close(cell, exp, 1e-9, 1e-300):
                 acc.violation(f'C18/snapshot/value/{v}{sfx}', 'cell = interpolation of the neighbouring samples in the requested unit', case,
                               {'element': e.name, 'var': v, 'cell': cell, 'expected': exp, 'unit': u})
+    ts_ = m.times()
+    where = 'at-instant' if any(t == x for x in ts_) else ('near-instant' if any(abs(t - x) < 1e-5 for x in ts_) else 'between')
+    acc.outcomes[('snapshot', where, 'all-variables' if variables is None else ('one' if len(variables) == 1 else 'subset'), tag or 'single-run')] += 1
     acc.nstates += 1
     acc.cases += 1
     acc.executions += 1
@@ -206,6 +212,7 @@ def check_export(acc, which, m, time_unit, unit_over, tmp):
                     break
             if bad:
                 break
+    acc.outcomes[('export', time_unit, 'default-units' if not unit_over else 'unit-deviation')] += 1
     acc.nstates += 1
     acc.cases += 1
     acc.executions += 1
